@@ -432,6 +432,7 @@ def log_evidence_from(
     )
 
 
+@to_new_array
 def residual_flux_fraction_map_from(
     *, residual_map: np.ndarray, data: np.ndarray
 ) -> np.ndarray:
@@ -450,6 +451,7 @@ def residual_flux_fraction_map_from(
     return np.divide(residual_map, data, out=np.zeros_like(residual_map))
 
 
+@to_new_array
 def residual_flux_fraction_map_with_mask_from(
     *, residual_map: np.ndarray, data: np.ndarray, mask: Mask
 ) -> np.ndarray:
